@@ -275,21 +275,27 @@ def gen_program(rng):
 
 
 def gen_options(rng, prog, allow_mixed, logged, plain_lib=None):
-    """(libcall option, [-F/-N patterns as UFTRACE_FILTER elements]); patterns name calls that happened"""
+    """(libcall option, [-F/-N patterns as UFTRACE_FILTER elements], --match type); patterns name calls that happened"""
     if plain_lib:
-        return plain_lib, None
+        return plain_lib, None, None
     lib = rng.choice(["NONE", "SINGLE", "SINGLE", "NESTED", "NESTED"])
     # (not math.sqrt: as a regex it matches the native symbol math_sqrt, see finding native-symbol-filter)
     cand = [n for n in logged if n.startswith(("q_", "Q_K", "c19lib.q_l", "c19mod.")) or n in ("builtins.sorted", "posix.getpid", "builtins.max")]
     if not cand:
-        return lib, None
+        return lib, None, None
+    patt = rng.choice([None, None, "glob", "simple"])
     kind = rng.choice(["F", "N", "FN"] if allow_mixed else ["F", "N"])
     env = []
     for j in range(rng.choice([1, 1, 2])):
         n = rng.choice(cand)
         # patterns must not match native symbols of the interpreter (libmcount applies the same filter to
         # them, see finding native-symbol-filter): library names only whole, user names whole or by prefix
-        if n.startswith(LIB_PREFIX) or n.startswith("c19mod."):
+        if patt == "simple":
+            p = n
+        elif patt == "glob":
+            user = not (n.startswith(LIB_PREFIX) or n.startswith("c19mod."))
+            p = rng.choice([n, n[:4] + "*", n[:3] + "?" + n[4:], n[:2] + "*" + n[-2:]]) if user else rng.choice([n, n[:-1] + "?"])
+        elif n.startswith(LIB_PREFIX) or n.startswith("c19mod."):
             p = rng.choice([n, "^" + n + "$"])
         else:
             p = rng.choice([n, n, "^" + n + "$", "^" + n[:5], "^" + n[:3]])
@@ -297,7 +303,7 @@ def gen_options(rng, prog, allow_mixed, logged, plain_lib=None):
         env.append(("!" if out else "") + p)
     if kind == "FN" and len(env) == 1:
         env.append("!" + rng.choice(cand))
-    return lib, env
+    return lib, env, patt
 
 
 # --------------------------------------------------------------------------- running
@@ -334,7 +340,7 @@ class World:
                            cwd=self.root, timeout=40)
         return p.returncode, p.stdout, p.stderr, (open(log).read().split("\n") if os.path.exists(log) else None)
 
-    def traced(self, lib, env):
+    def traced(self, lib, env, patt=None, relative=False):
         import subprocess
         d = os.path.join(self.root, "data")
         shutil.rmtree(d, ignore_errors=True)
@@ -348,8 +354,10 @@ class World:
             opts.append("--nest-libcall")
         for e in env or []:
             opts += ["-N", e[1:]] if e.startswith("!") else ["-F", e]
+        if patt:
+            opts += ["--match", patt]
         cmd = ["timeout", "30", self.uft, "record", "--no-pager", "--no-event", "--libmcount-path=" + self.objdir,
-               "-d", d] + opts + [self.prog, log]
+               "-d", d] + opts + ["main/prog.py" if relative else self.prog, log]   # relative: main_dir by realpath()
         p = subprocess.run(cmd, env=self.env(), capture_output=True, text=True, cwd=self.root, timeout=60)
         if p.returncode != 124 and os.path.isdir(d) and not [f for f in os.listdir(d) if f.endswith(".dat")]:
             # no task data at all: legitimate when nothing is selected; seen once as a transient on a loaded
@@ -457,8 +465,9 @@ def c_ecase(k):
                     (cs(n), coq.coq_bool(n.startswith(LIB_PREFIX))) for n in names)
     env = "None" if k["env"] is None else "(Some [%s])" % "; ".join(cs(p) for p in k["env"])
     lib = {"NONE": "LNone", "SINGLE": "LSingle", "NESTED": "LNested"}[k["lib"]]
-    return "{| x_env := %s; x_lib := %s;\n   x_tab := [%s];\n   x_log := %s;\n   x_open := %s;\n   x_replay := %s |}" % (
-        env, lib, tab, ifor(k["forest"]), coq.coq_bool(k["open"]), c_nforest(k["replay"]))
+    return "{| x_patt := %s; x_env := %s; x_lib := %s;\n   x_tab := [%s];\n   x_log := %s;\n   x_open := %s;\n   x_replay := %s |}" % (
+        {None: "PRegex", "glob": "PGlob", "simple": "PSimple"}[k.get("patt")], env, lib, tab, ifor(k["forest"]),
+        coq.coq_bool(k["open"]), c_nforest(k["replay"]))
 
 
 def all_names(f, acc):
@@ -488,11 +497,12 @@ def evaluate(ctx, ecases, name="ecases"):
     return {k: coq.parse_nat_list(v) for k, v in res.items()}
 
 
-def one_config(ctx, w, prog, nat, lib, env):
+def one_config(ctx, w, prog, nat, lib, env, patt=None, relative=False):
     """run one traced configuration; returns an ecase dict or None after reporting"""
     rc, out, err, log = nat
-    t = w.traced(lib, env)
-    rep = {"mode": "e2e", "program": prog["src"], "ending": prog["ending"], "libcall": lib, "filters": env, "cmd": t["cmd"]}
+    t = w.traced(lib, env, patt, relative)
+    rep = {"mode": "e2e", "program": prog["src"], "ending": prog["ending"], "libcall": lib, "filters": env, "match": patt,
+           "cmd": t["cmd"]}
     if t["rc"] == 124:
         ctx.violation("uftrace record did not terminate on a generated Python program", rep, True)
         return None
@@ -522,7 +532,7 @@ def one_config(ctx, w, prog, nat, lib, env):
     unp = "unpaired cygprof exit" in t["err"]
     if os.environ.get("VERIF_DEBUG"):
         ctx.log("e2e case:", lib, env, ending, "replayed", json.dumps(replay)[:300])
-    return {"env": env, "lib": lib, "forest": strip_dump(forest), "replay": strip_dump(replay),
+    return {"patt": patt, "env": env, "lib": lib, "forest": strip_dump(forest), "replay": strip_dump(replay),
             "names": all_names(forest, all_names(replay, [])), "rep": rep, "unpaired": unp, "open": ending == "os._exit",
             "by_exception": ending in ("sys.exit", "SystemExit"), "tags": prog["tags"]}
 
@@ -616,7 +626,7 @@ def run(ctx, objdir):
         if k is not None:
             ecases.append(k)
             ctx.case(key=("e2e-fixed", "os._exit", lib), tags=["e2e:fixed-os._exit", "e2e:lib:" + lib])
-    nprog = ctx.n(6, 48)
+    nprog = ctx.n(6, 44)
     for pi in range(nprog):
         prog = gen_program(rng)
         w.write(prog)
@@ -627,16 +637,16 @@ def run(ctx, objdir):
         nconf = ctx.n(2, 5)
         logged = sorted(set(l.split(" ", 1)[1] for l in nat[3] if l))
         for ci in range(nconf):
-            lib, env = gen_options(rng, prog, allow_mixed=True, logged=logged,
-                                   plain_lib=["NESTED", "SINGLE", "NONE"][pi % 3] if ci == 0 else None)
-            k = one_config(ctx, w, prog, nat, lib, env)
+            lib, env, patt = gen_options(rng, prog, allow_mixed=True, logged=logged,
+                                         plain_lib=["NESTED", "SINGLE", "NONE"][pi % 3] if ci == 0 else None)
+            k = one_config(ctx, w, prog, nat, lib, env, patt, relative=(pi % 2 == 1))
             if k is None:
                 continue
             ecases.append(k)
             fk = "none" if env is None else "mixed" if any(e.startswith("!") for e in env) and not all(e.startswith("!") for e in env) \
                 else "N" if env[0].startswith("!") else "F"
-            ctx.case(key=("e2e", prog["src"], lib, tuple(env or ())), tags=["e2e:" + t for t in prog["tags"]] +
-                     ["e2e:lib:" + lib, "e2e:filter:" + fk], size=len(nat[3]),
+            ctx.case(key=("e2e", prog["src"], lib, tuple(env or ()), patt), tags=["e2e:" + t for t in prog["tags"]] +
+                     ["e2e:lib:" + lib, "e2e:filter:" + fk, "e2e:match:" + str(patt), "e2e:script-path:" + ("relative" if pi % 2 else "absolute")], size=len(nat[3]),
                      sample={"e2e_cmd": k["rep"]["cmd"], "log_lines": len(nat[3])} if len(ctx.samples) < 5 else None)
     res = evaluate(ctx, ecases)
     verdict(ctx, ecases, res)
@@ -647,7 +657,7 @@ def replay(ctx, objdir, obj):
     prog = {"src": obj["program"], "ending": obj.get("ending", "normal"), "fnames": [], "tags": []}
     w.write(prog)
     nat = w.native()
-    k = one_config(ctx, w, prog, nat, obj.get("libcall", "SINGLE"), obj.get("filters"))
+    k = one_config(ctx, w, prog, nat, obj.get("libcall", "SINGLE"), obj.get("filters"), obj.get("match"))
     ctx.case(key="replay-e2e")
     if k is None:
         return
